@@ -9,7 +9,8 @@ REG = {}
 
 class Contract:
     def __init__(self, name, props, fns, params, body, kind="proof", bound=None, replay="concrete",
-                 max_paths=20000, timeout_ms=20000, note=None, stubs=(), backend="int"):
+                 max_paths=20000, timeout_ms=20000, note=None, stubs=(), backend="int", api=None):
+        self.api = api
         self.backend = backend
         self.name = name
         self.props = list(props)
